@@ -191,6 +191,9 @@ PREDS = {
     "and_idx_a": lambda y: (y.index > 2) & (y["a"] > 1),
     "and_indexcol_a": lambda y: (y["index"] > 3) & (y["a"] < 5),  # former index and a column (reset_index)
     "u_gt_and_b": lambda y: (y["u"] > 3) & (y["b"] < 4),
+    # the (new) index reached through something derived from the frame
+    "derived_idx_gt": lambda y: y["a"].index.to_series() > 2,
+    "derived_idx_and_a": lambda y: ((y["a"] + 1).index.to_series() > 2) & (y["a"] > 1),
 }
 
 CROSS = {
@@ -211,7 +214,7 @@ CROSS = {
     "reset_index_drop": (lambda x: x.reset_index(drop=True), None, True, False, ["a_gt2", "b_isna"]),
     "to_frame": (lambda x: x["a"].to_frame(), None, True, True, ["a_gt2"]),
     "sort_values": (lambda x: x.sort_values("u"), None, True, True, ["a_cumsum", "b_rank_like", "a_gt_mean_plus", "a_minus_mean", "a_gt2", "u_gt", "b_ne", "or_common", "a_gt_mean"]),
-    "set_index": (lambda x: x.set_index("u"), lambda x: x.set_index("u").sort_index(), True, True, ["a_gt2", "idx_gt", "and_idx_a", "b_ne", "a_gt_mean"]),
+    "set_index": (lambda x: x.set_index("u"), lambda x: x.set_index("u").sort_index(), True, True, ["a_gt2", "idx_gt", "and_idx_a", "b_ne", "a_gt_mean", "derived_idx_gt", "derived_idx_and_a"]),
     "shuffle": (lambda x: x.shuffle("a"), lambda x: x, False, True, ["a_gt2", "b_ne", "c_ne_x", "or_common"]),
     "repartition": (lambda x: x.repartition(npartitions=2), lambda x: x, True, True, ["a_cumsum", "a_gt2", "b_ne", "a_gt_mean", "idx_gt"]),
     "concat": (lambda x: _concat([x, x]), None, True, True, ["a_gt2", "b_ne", "or_common"]),
@@ -325,6 +328,11 @@ JOIN_PREDS = {
     "and_mean_then_left": lambda m: (m["e"] > m["e"].mean()) & (m["u"] > 4),
     "key_vs_mean_plus": lambda m: m["a"] > m["a"].mean() + 0,
     "left_vs_max_minus": lambda m: m["u"] >= m["u"].max() - 3,
+    # a condition that reads columns of BOTH inputs, alone and and-ed (in both orders, and stacked) to a one-sided condition
+    "cross_cols": lambda m: m["u"] > m["e"],
+    "cross_then_left": lambda m: (m["u"] > m["e"]) & (m["u"] > 2),
+    "left_then_cross": lambda m: (m["u"] > 2) & (m["u"] > m["e"]),
+    "cross_then_right": lambda m: (m["u"] > m["e"]) & (m["e"] < 6),
 }
 
 
